@@ -176,7 +176,8 @@ func groundRegistry(w *World) []*FnResult {
 						continue
 					}
 					pos := w.Fset.Position(fd.Pos())
-					entries = append(entries, entry{lp, constant.StringVal(tv.Value), fmt.Sprintf("%s:%d", strings.TrimPrefix(pos.Filename, w.RepoDir+"/"), pos.Line)})
+					// identified by file, not by line: obligation names must survive unrelated edits of the file
+					entries = append(entries, entry{lp, constant.StringVal(tv.Value), strings.TrimPrefix(pos.Filename, w.RepoDir+"/")})
 				}
 			}
 		}
